@@ -5,16 +5,16 @@
 (* TopoOps.tla).  Spec state: per slot the lifecycle/configuration record  *)
 (* (Lifecycle.tla) and the last projection of the topology.                *)
 (***************************************************************************)
-EXTENDS TopoOps, Json, IOUtils, TLC
+EXTENDS XmlDoc, Json, IOUtils, TLC
 
 T == ndJsonDeserialize(IOEnv.TRACE)
 
-VARIABLES l, slots, topos
+VARIABLES l, slots, topos, docs      \* docs: path -> document record (XmlDoc.tla)
 
 NoTopo == [n |-> 0]
 Live(t) == t.n > 0
 
-Init == l = 1 /\ slots = <<>> /\ topos = <<>>
+Init == l = 1 /\ slots = <<>> /\ topos = <<>> /\ docs = <<>>
 
 IsEvent(e) == l <= Len(T) /\ T[l].e = e /\ l' = l + 1
 E == T[l]
@@ -29,8 +29,9 @@ AllUnchanged == LoggedTopos = topos
 TReset == /\ IsEvent("Reset")
           /\ slots' = [s \in 1..E.nslots |-> NoSlot]
           /\ topos' = [s \in 1..E.nslots |-> NoTopo]
+          /\ docs' = <<>>
 
-TEnv == IsEvent("env") /\ UNCHANGED <<slots, topos>>
+TEnv == IsEvent("env") /\ UNCHANGED <<slots, topos, docs>>
 
 TInit == /\ IsEvent("init")
          /\ slots[S].st = "none"
@@ -38,11 +39,13 @@ TInit == /\ IsEvent("init")
          /\ AllUnchanged
          /\ slots' = [slots EXCEPT ![S] = InitSlot]
          /\ UNCHANGED topos
+         /\ UNCHANGED docs
 
 TDestroy == /\ IsEvent("destroy")
             /\ OthersUnchanged(S)
             /\ slots' = [slots EXCEPT ![S] = NoSlot]
             /\ topos' = [topos EXCEPT ![S] = NoTopo]
+            /\ UNCHANGED docs
 
 \* the source setters may accept or refuse (C07 and C06 refine this); never anything else
 TSource == /\ (IsEvent("synthetic") \/ IsEvent("xml") \/ IsEvent("xmlbuffer"))
@@ -50,12 +53,14 @@ TSource == /\ (IsEvent("synthetic") \/ IsEvent("xml") \/ IsEvent("xmlbuffer"))
            /\ E.ret \in {0, -1}
            /\ AllUnchanged
            /\ UNCHANGED <<slots, topos>>
+           /\ UNCHANGED docs
 
 TFlags == /\ IsEvent("flags")
           /\ \E s2 \in {slots[S], [slots[S] EXCEPT !.flags = E.flags]} :
                 SetFlagsRel(slots[S], E.flags, E.ret, E.errno, s2) /\ slots' = [slots EXCEPT ![S] = s2]
           /\ AllUnchanged
           /\ UNCHANGED topos
+          /\ UNCHANGED docs
 
 TFilter == /\ IsEvent("filter")
            /\ LET s2 == [slots[S] EXCEPT !.filters = E.now] IN
@@ -63,6 +68,7 @@ TFilter == /\ IsEvent("filter")
                 /\ slots' = [slots EXCEPT ![S] = s2]
            /\ AllUnchanged
            /\ UNCHANGED topos
+           /\ UNCHANGED docs
 
 \* C01: whenever load returns 0 the topology is well formed and carries the configuration
 TLoad == /\ IsEvent("load")
@@ -81,11 +87,13 @@ TLoad == /\ IsEvent("load")
                /\ E.topos[S].n = 0
                /\ slots' = [slots EXCEPT ![S] = NoSlot]           \* the recorder destroys a topology whose load failed
                /\ UNCHANGED topos
+         /\ UNCHANGED docs
 
 TObserve == /\ IsEvent("observe")
             /\ slots[S].st = "loaded"
             /\ AllUnchanged
             /\ UNCHANGED <<slots, topos>>
+            /\ UNCHANGED docs
 
 \* exporting is a consulting call: nothing moves (C05 judges the exported bytes)
 TExport == /\ IsEvent("export_xml")
@@ -93,6 +101,7 @@ TExport == /\ IsEvent("export_xml")
            /\ E.ret \in {0, -1}
            /\ AllUnchanged
            /\ UNCHANGED <<slots, topos>>
+           /\ UNCHANGED docs
 
 \* modifying calls (TopoOps.tla): relation between the projection before and after, then adopt the logged one
 TModify == /\ l <= Len(T) /\ T[l].e \in ModifyingEvents /\ l' = l + 1
@@ -100,7 +109,8 @@ TModify == /\ l <= Len(T) /\ T[l].e \in ModifyingEvents /\ l' = l + 1
            /\ ModifyRel(E, topos[S], E.topos[S], slots[S])
            /\ OthersUnchanged(S)
            /\ topos' = [topos EXCEPT ![S] = Tagged(E.topos[S])]
-           /\ UNCHANGED slots
+           /\ slots' = [slots EXCEPT ![S].pristine = FALSE]
+           /\ UNCHANGED docs
 
 TDup == /\ IsEvent("dup")
         /\ slots[S].st = "loaded" /\ slots[E.dst + 1].st = "none"
@@ -108,9 +118,53 @@ TDup == /\ IsEvent("dup")
         /\ \A k \in 1..Len(topos) : (k # S /\ k # E.dst + 1) => LoggedTopos[k] = topos[k]
         /\ slots' = [slots EXCEPT ![E.dst + 1] = IF E.ret = 0 THEN slots[S] ELSE NoSlot]
         /\ topos' = [topos EXCEPT ![E.dst + 1] = LoggedTopos[E.dst + 1]]
+        /\ UNCHANGED docs
 
-Next == TReset \/ TEnv \/ TInit \/ TDestroy \/ TSource \/ TFlags \/ TFilter \/ TLoad \/ TObserve \/ TExport \/ TModify \/ TDup
-Spec == Init /\ [][Next]_<<l, slots, topos>>
+\* ---- C05: XML export and import ----
+DocOf(path) == CHOOSE k \in DOMAIN docs : docs[k].path = path
+HasDoc(path) == \E k \in DOMAIN docs : docs[k].path = path
+
+\* exporting is a consulting call; the same topology exported twice with the same flags gives the same bytes
+TXmlExport ==
+  /\ IsEvent("xml_export")
+  /\ slots[S].st = "loaded"
+  /\ E.ret = 0 /\ E.len > 0 /\ E.cbfail = 0
+  /\ AllUnchanged
+  /\ E.ud = 0 => E.deliv = <<>>
+  \* the export callback is invoked exactly for the objects whose userdata is not NULL (all of them are tagged)
+  /\ E.ud = 1 => {E.deliv[k][1] : k \in DOMAIN E.deliv} = GpSet(topos[S])
+  /\ LET d == [path |-> E.path, src |-> topos[S], flags |-> E.flags, digest |-> E.digest, len |-> E.len, deliv |-> E.deliv,
+               srcflags |-> slots[S].flags] IN
+       \* fixpoint: a topology that was itself imported from a document exported with the same flags re-exports the same bytes
+       \* (an importer told to ignore distances / memattrs / cpukinds legitimately re-exports less)
+       /\ (slots[S].origin # <<>> /\ slots[S].origin.flags = E.flags /\ slots[S].origin.ud = E.ud /\ slots[S].pristine
+           /\ ~Bit(slots[S].flags, 128) /\ ~Bit(slots[S].flags, 256) /\ ~Bit(slots[S].flags, 512)) =>
+              (E.digest = slots[S].origin.digest /\ E.len = slots[S].origin.len)
+       /\ docs' = Append(SelectSeq(docs, LAMBDA x : x.path # E.path), d)
+  /\ UNCHANGED <<slots, topos>>
+
+TXmlImport ==
+  /\ IsEvent("xml_import")
+  /\ slots[S].st = "none"
+  /\ HasDoc(E.path)
+  /\ OthersUnchanged(S)
+  /\ LET d == docs[DocOf(E.path)]  t == E.topos[S] IN
+       /\ E.set = 0 /\ E.load = 0 /\ E.ret = 0             \* what hwloc exported, hwloc loads
+       /\ t.n > 0 /\ WellFormed(t)
+       /\ E.setflags = 0 /\ t.flags = E.flags
+       /\ (E.keepall = 1 /\ E.flags = d.srcflags) =>
+             IF Bit(d.flags, XML_FLAG_V2) THEN SameTreeAndSets(d.src, t) ELSE Equivalent(d.src, t, E.flags)
+       \* userdata: delivered exactly as many times, with the same name, bytes and length, as it was exported
+       /\ E.ud = 1 => E.deliv = d.deliv
+       /\ E.ud = 0 => E.deliv = <<>>
+       /\ slots' = [slots EXCEPT ![S] = [st |-> "loaded", flags |-> E.flags, filters |-> t.filters,
+                                          origin |-> [flags |-> d.flags, digest |-> d.digest, len |-> d.len, ud |-> IF d.deliv = <<>> THEN 0 ELSE 1],
+                                          pristine |-> TRUE]]
+       /\ topos' = [topos EXCEPT ![S] = Tagged(t)]
+  /\ UNCHANGED docs
+
+Next == TXmlExport \/ TXmlImport \/ TReset \/ TEnv \/ TInit \/ TDestroy \/ TSource \/ TFlags \/ TFilter \/ TLoad \/ TObserve \/ TExport \/ TModify \/ TDup
+Spec == Init /\ [][Next]_<<l, slots, topos, docs>>
 
 Accepted == TLCGet("stats").diameter - 1 = Len(T)
 =============================================================================
